@@ -73,6 +73,7 @@ fn main() {
                 "cuckoo" => vharness::mexec::exec_cuckoo(&m),
                 "lossy" => vharness::mexec::exec_lossy(&m),
                 "heap" => vharness::mexec::exec_heap(&m),
+                "qf" => vharness::mexec::exec_qf(&m),
                 _ => "{\"error\":\"unknown exec\"}".to_string(),
             };
             println!("{}", out);
